@@ -80,6 +80,13 @@ def check_item(item):
     has_else = variant in ("else", "elsex", "elsepat", "mixelse")
     else_owner = len(clauses) - 1 if variant == "elsepat" else None
     reps = U.reps_of(stmts)
+    # a case-insensitive literal folds ASCII letters only: the byte 0x20 away from each of its high bytes must behave like any other byte
+    extra = set()
+    for pats in clauses:
+        for pt in pats:
+            if isinstance(pt, tuple) and pt and pt[0] == "liti":
+                extra |= {b ^ 0x20 for b in pt[1] if b >= 0x80}
+    reps = sorted(set(reps) | extra)
     dfas = [D.Dfa(r, reps) for r in cores]
     Q0 = tuple(cores)
     lexer = variant == "lexer"
@@ -299,13 +306,15 @@ def items_for(tier, seed):
     multi = [((PATS[a], PATS[b]), (PATS[c],)) for a, b in itertools.combinations(idx[:9], 2) for c in idx[:9] if c not in (a, b)]
     if tier == "quick":
         multi = multi[seed % 4::4]
-    allsets = sets + three + four + multi
+    # case-insensitive literals with letters outside ASCII next to their "other case" spelled exactly
+    high = [((("liti", b"a\xe9"),),), ((("liti", b"\xe9b"),), (L("c"),)), ((("liti", b"a\xe9"),), (L(b"a\xc9x"),)), ((("liti", b"\xdfa"),), (("liti", b"b\xff"),))]
+    allsets = sets + three + four + multi + high
     for s in allsets:
         n = len(s)
         for variant in ("plain", "else", "elsex", "empty1", "elsepat", "mixbody", "mixelse"):
             items.append((s, variant, False, None))
         for pr in (None, tuple(range(1, n + 1)), tuple(reversed(range(1, n + 1)))):
-            for variant in ("plain", "else", "lexer", "mixbody", "mixelse"):
+            for variant in ("plain", "else", "lexer", "mixbody", "mixelse") + (("empty1",) if pr is not None else ()):
                 items.append((s, variant, True, pr))
         # annotated and un-annotated clauses mixed (an un-annotated clause has priority 0 wherever it stands)
         mixed = [tuple(range(n - 1, 0, -1)) + (None,), (None,) + tuple(range(1, n)), tuple((None if k % 2 else 3 - k // 2) for k in range(n))]
@@ -315,13 +324,48 @@ def items_for(tier, seed):
     return [(a, b, c, d, (i % (9 if tier == "quick" else 6)) == seed % (9 if tier == "quick" else 6)) for i, (a, b, c, d) in enumerate(items)]
 
 
+def ref_items(tier, seed):
+    """clause bodies that only assign (not timing-strict, so ties decided by priority are accepted): which clause ran is read from the data at
+    the hook after the next match; decided jointly with the reference interpreter, which implements the documented greedy/priority selection"""
+    idx = list(range(len(PATS)))
+    out = []
+    k = 0
+    for n in (2, 3):
+        for combo in itertools.combinations(idx, n):
+            k += 1
+            if tier == "quick" and n == 3 and k % 4 != seed % 4:
+                continue
+            for pr in (tuple(range(n, 0, -1)), tuple(range(1, n + 1)), (None,) * (n - 1) + (1,), (1,) + (None,) * (n - 1)):
+                cl = tuple((pr[i], (PATS[c],), (("set", "m", ("num", i + 1)),)) for i, c in enumerate(combo))
+                for tail in ((("match", L("!")), ("hook", "h")), ()):
+                    for els in ((), ((None, ("else",), (("set", "m", ("num", 9)), ("match", ("re", RX["."])))),)):
+                        out.append(("ref", (("case", True, cl + els),) + tail + (("hook", "g"),), "REFCASE#%d" % len(out)))
+    return out
+
+
+def check_ref(item):
+    from checks import c01
+    _, ast, label = item
+    r = c01.check_program(dict(ast=ast, label=label, want_c=False, cap=1500, levels=[[], ["-O3"]]))
+    prob = r["problems"][0] if r["problems"] else None
+    return dict(src=r["src"], argv=(prob or {}).get("argv", []), status=r["status"] if r["status"] in ("ok", "internal", "timeout") else "rejected", detail=r.get("detail", ""),
+                states=r["states"], trans=r["trans"], creplay=0, shapes=sorted(map(repr, r["shapes"])) if not isinstance(r["shapes"], list) else r["shapes"],
+                problem=(prob["what"] if prob else None), path=(prob or {}).get("path", ""), ambiguous=0)
+
+
+def dispatch(item):
+    if item[0] == "ref":
+        return check_ref(item)
+    return check_item(item)
+
+
 def run(tier, seed):
     ck = Check("C08", tier, seed, "model_checking",
                rule="clause-pattern sets x body variants x greedy/priorities; product of machine and parallel pattern automata to a fixpoint; "
                     "distinct = (program, (oracle phase, result code, #events before, #events after consumption)) pairs")
-    items = items_for(tier, seed)
+    items = items_for(tier, seed) + ref_items(tier, seed)
     stats = dict(items=len(items), rejected=0, capped=0, ambiguous_branches_skipped=0)
-    for idx, r in pmap(check_item, items, timeout=300, chunksize=8, stop=ck.enough):
+    for idx, r in pmap(dispatch, items, timeout=300, chunksize=8, stop=ck.enough):
         if "harness_error" in r or "harness_timeout" in r:
             harness_fail("%s on item %d" % (r, idx))
         if r["status"] not in ("ok", "capped"):
@@ -340,7 +384,8 @@ def run(tier, seed):
             ck.sample(dict(source=r["src"], product_states=r["states"], shapes=r["shapes"][:6]))
         if r["problem"]:
             ck.violation("C08:%s:%s" % (r["problem"].split(" byte ")[0][:40], sha(r["src"])[:10]), "%s | input %s | %s" % (r["problem"], r["path"], r["src"].replace("\n", " ")),
-                         dict(src=r["src"], argv=r["argv"], path=r["path"], item=repr(items[idx][:4])))
+                         dict(src=r["src"], argv=r["argv"], path=r["path"], item=repr(items[idx][:4])) if items[idx][0] != "ref" else
+                         dict(src=r["src"], argv=r["argv"], path=r["path"], ref_ast=repr(items[idx][1])))
     ck.extra.update(stats)
     ck.exhaustive = stats["capped"] == 0
     ck.assumptions += ["a clause body consisting of `finish Ci` / `yield Yi` may fire with the byte that completes the pattern or when the next byte arrives (before it is consumed)",
@@ -350,8 +395,11 @@ def run(tier, seed):
 
 def replay(path):
     d = json.load(open(path))
-    it = eval(d["item"])
-    r = check_item(tuple(it) + (True,))
+    if d.get("ref_ast"):
+        r = check_ref(("ref", eval(d["ref_ast"]), "replay"))
+    else:
+        it = eval(d["item"])
+        r = check_item(tuple(it) + (True,))
     print(r["problem"], r["path"])
     print("REPRODUCED" if r["problem"] else "not reproduced")
     return 1 if r["problem"] else 0
